@@ -179,9 +179,15 @@ CheckTail ==
                ELSE Report("tailvalue", "plain", "tail-recursive loop and its non-tail twin differ at large n",
                            b.twin, b.tail)
 
+\* a session during which the implementation aborted the host process (recorded by the isolated runner)
+CheckAbort == IF ~Has(Rec[si], "abort") THEN TRUE
+              ELSE Report("abort", "isolated", "the host process was aborted while running this session",
+                          "normal termination", Rec[si].abort)
+
 End ==
   /\ ph \in {"next", "stop"} /\ (ph = "stop" \/ fi = Len(Rec[si].forms))
   /\ CheckTail
+  /\ CheckAbort
   /\ PrintT(<<"END", ToJson([id |-> Rec[si].id, forms |-> fi, oom |-> (ph = "stop"),
                             why |-> IF ph = "stop" THEN m.res.payload ELSE "", steps |-> tot,
                             maxd |-> m.maxd, rules |-> m.rules])>>)
